@@ -29,9 +29,10 @@ def handle : List String → String
     | some (ν, [sq]) =>
       match parseRat sq with
       | some sq =>
-        match hedge Pun.Gen.hedgeTable (kw.replace "_" " ") ν sq with
-        | some iv => s!"ok {showEB iv.lo} {showEB iv.hi}"
-        | none => "none"
+        match checked (hedge Pun.Gen.hedgeTable (kw.replace "_" " ") ν sq) with
+        | .ok (some iv) => s!"ok {showEB iv.lo} {showEB iv.hi}"
+        | .ok none => "none"
+        | .error e => s!"err {e}"
       | none => "bad-op"
     | _ => "bad-op"
   | "val" :: rest =>
